@@ -214,8 +214,12 @@ package core
 //@   send chans.doneOk#1 assert [after-all-uploaders-returned] i >= cap(concurrencyControl)
 
 // ---- latest bundle / squash (C06 readers, C10) -----------------------------------------------------
+// the latest bundle is one whose descriptor exists: the keys are listed flat (object keys, not prefixes), and
+// the answer is taken from a listed key that IS the descriptor key of the bundle it names
 //@ func GetLatestBundle
 //@   requires stores != nil && getMetaStore(stores) != nil
+//@   call KeysPrefix#1 assert [flat-listing] $delimiter == "" && $prefix == model.GetArchivePathPrefixToBundles(repo)
+//@   loop 1 invariant i < len(ks)
 //@   ensures [visible] ret1 == nil ==> stored(getMetaStore(stores), model.GetArchivePathToBundle(repo, ret0))
 
 //@ func RepoSquash
